@@ -1,9 +1,9 @@
 (* C06 - userspace and eBPF programs agree on every map layout and key encoding.
-   Statements only; proofs are in Proofs/LayoutProofs.v.  Each theorem is closed by [exact] and followed by
+   Statements only; proofs are in Proofs/LayoutProofs.v and Proofs/LayoutEncProofs.v.  Each theorem is closed by [exact] and followed by
    Print Assumptions.  Gen/Layouts.v is REGENERATED from the working tree by checks/C06.py before this file is
    compiled: the subject of C06_generated_pairs_ok and its corollaries is the current declarations. *)
 From Coq Require Import NArith List Bool String.
-From Verif Require Import Base.Word Model.Layout Model.KeyDeriv Model.LayoutCheck Gen.Layouts Proofs.LayoutProofs.
+From Verif Require Import Base.Word Model.Layout Model.KeyDeriv Model.LayoutEnc Model.LayoutCheck Gen.Layouts Proofs.LayoutProofs Proofs.LayoutEncProofs.
 Import ListNotations.
 Local Open Scope N_scope.
 
@@ -207,3 +207,78 @@ Theorem C06_lpm_key_agree_partial : forall plen net src, plen <= 32 -> wf_bytes_
   lpm_entry_matches (go_lpm_key plen net) (c_lpm_lookup src) = in_prefix plen net src.
 Proof. exact lpm_key_agree_partial. Qed.
 Print Assumptions C06_lpm_key_agree_partial.
+
+(* ---------------------------------------------------------------- (C) meaning-level encoding of value members *)
+(* The two families by which Go derives the stored elements of an address / MAC member from the wire bytes of the
+   value it means.  Native (copy of the bytes, or NativeEndian words): for EVERY element width w and count k the
+   marshalled member is the wire bytes - what a program that compares raw memory with packet bytes needs. *)
+Theorem C06_enc_native_agree : forall w k bs, List.length bs = (w * k)%nat -> Forall (fun b => b < 256) bs ->
+  marshal w (words_ne w k bs) = c_net_bytes bs.
+Proof. exact marshal_words_ne_exact. Qed.
+Print Assumptions C06_enc_native_agree.
+(* BigEndian idiom (binary.BigEndian.UintN per group, the IPv4Addr idiom): every group of w bytes lands reversed ... *)
+Theorem C06_enc_bigendian_groups_reversed : forall w k bs, (w * k <= List.length bs)%nat -> Forall (fun b => b < 256) bs ->
+  marshal w (words_be w k bs) = flat_map (@rev N) (chunks w k bs).
+Proof. exact marshal_words_be. Qed.
+Print Assumptions C06_enc_bigendian_groups_reversed.
+(* ... so it agrees with the wire bytes exactly when every group is a byte palindrome (w = 1: always) *)
+Theorem C06_enc_bigendian_agree_iff : forall w k bs, List.length bs = (w * k)%nat -> Forall (fun b => b < 256) bs ->
+  (marshal w (words_be w k bs) = c_net_bytes bs <-> group_palin w k bs = true).
+Proof. exact marshal_words_be_agree_iff. Qed.
+Print Assumptions C06_enc_bigendian_agree_iff.
+Theorem C06_ipv4_is_bigendian_family : forall ip, wf_bytes_n 4 ip -> go_ip_bytes ip = marshal 4 (words_be 4 1 ip).
+Proof. exact go_ip_bytes_words_be. Qed.
+Print Assumptions C06_ipv4_is_bigendian_family.
+
+(* IPv6 source binding (subscriber_binding.ipv6_addr, 16 x u8 on both sides, AddBindingV6 copies the bytes): full *)
+Theorem C06_ipv6_member_agree : forall ip6, wf_bytes_n 16 ip6 -> go_ip6_member ip6 = c_ip6_member ip6.
+Proof. exact ip6_member_agree. Qed.
+Print Assumptions C06_ipv6_member_agree.
+Example C06_ipv6_guard_satisfiable : wf_bytes_n 16 ip6_doc /\ go_ip6_member ip6_doc = ip6_doc.
+Proof. split; [exact ip6_doc_wf|vm_compute; reflexivity]. Qed.
+(* the same 16 bytes declared as four 32-bit words and filled with the BigEndian idiom: same size, offsets and widths on
+   both sides, but agreement only for addresses whose four groups are palindromes; refuted in general *)
+Theorem C06_ipv6_member_words_be_iff : forall ip6, wf_bytes_n 16 ip6 ->
+  (go_ip6_member_be32 ip6 = c_ip6_member ip6 <-> group_palin 4 4 ip6 = true).
+Proof. exact ip6_member_be32_agree_iff. Qed.
+Print Assumptions C06_ipv6_member_words_be_iff.
+Theorem C06_ipv6_member_words_be_refuted : ~ (forall ip6, wf_bytes_n 16 ip6 -> go_ip6_member_be32 ip6 = c_ip6_member ip6).
+Proof. exact ip6_member_be32_refuted. Qed.
+Print Assumptions C06_ipv6_member_words_be_refuted.
+
+(* server MAC (dhcp_server_config.server_mac, SetServerConfig copies mac[:6]): every hardware address of six or more bytes *)
+Theorem C06_mac_member_agree : forall mac, (6 <= List.length mac)%nat -> Forall (fun b => b < 256) mac ->
+  go_mac_member mac = c_mac_member mac.
+Proof. exact mac_member_agree. Qed.
+Print Assumptions C06_mac_member_agree.
+
+(* 16-bit ports: a member the program does arithmetic on (bpf_htons at use) agrees for every port; a member the program
+   fills from / compares with the raw L4 header word (nat_key.src_port / dst_port) agrees iff the two bytes are equal *)
+Theorem C06_port_host_agree : forall p, go_port_member p = c_port_host p.
+Proof. exact port_host_agree. Qed.
+Print Assumptions C06_port_host_agree.
+Theorem C06_port_net_agree_iff : forall p, p < 65536 -> (go_port_member p = c_port_net p <-> port_palin p = true).
+Proof. exact port_net_agree_iff. Qed.
+Print Assumptions C06_port_net_agree_iff.
+Theorem C06_port_net_agree_refuted : ~ (forall p, p < 65536 -> go_port_member p = c_port_net p).
+Proof. exact port_net_refuted. Qed.
+Print Assumptions C06_port_net_agree_refuted.
+Example C06_port_guard_satisfiable : 13621 < 65536 /\ port_palin 13621 = true /\ go_port_member 13621 = c_port_net 13621.
+Proof. repeat split. Qed.
+
+(* Model inside the monitor; a member that does not hold the wire bytes is rejected whatever the program did *)
+Theorem C06_model_val_accepted : forall ip6 mac, wf_bytes_n 16 ip6 -> (6 <= List.length mac)%nat -> Forall (fun b => b < 256) mac ->
+  accept tt (OVal 1 ip6) (snd (fst (step tt (OVal 1 ip6)))) = inl tt /\
+  accept tt (OVal 2 mac) (snd (fst (step tt (OVal 2 mac)))) = inl tt.
+Proof. exact (fun ip6 mac H6 Hl Hw => conj (model_val6_accepted ip6 H6) (model_valmac_accepted mac Hl Hw)). Qed.
+Print Assumptions C06_model_val_accepted.
+Theorem C06_val_wrong_bytes_rejected : forall fam v bs h,
+  l_eqb bs (if (fam =? 1) then c_ip6_member v else c_mac_member v) = false -> accept tt (OVal fam v) [bs; [h]] = inr CL_VAL.
+Proof. exact val_wrong_bytes_rejected. Qed.
+Print Assumptions C06_val_wrong_bytes_rejected.
+
+(* the usage table covers every regenerated member, and every member it classifies as network-order bytes still has the
+   element width / count the classification was established for (finite; recomputed on the regenerated list) *)
+Theorem C06_generated_members_encoding_established : enc_table_ok all_pairs = true.
+Proof. vm_compute. reflexivity. Qed.
+Print Assumptions C06_generated_members_encoding_established.
